@@ -304,6 +304,12 @@ class Evaluator:
                     return getattr(base, m)(*args, **kwargs)
             if isinstance(base, Native) and callable(getattr(base, n.func.attr, None)):
                 return getattr(base, n.func.attr)(*args, **kwargs)
+        if not isinstance(n.func, (ast.Name, ast.Attribute)):
+            # the callee is itself the value of an expression (``self.get_param_class()(...)``): every callable value an
+            # evaluation can hold comes from a rule's model or from the tables above
+            fv = self.ev(n.func)
+            if callable(fv):
+                return fv(*args, **kwargs)
         raise Unsupported('call %s' % ast.unparse(n)[:60])
 
     # -- statements -----------------------------------------------------------------
